@@ -345,6 +345,22 @@ fn main() {
         let w: Vec<&str> = t.split_whitespace().collect();
         let res = if t.starts_with("mode ") {
             "ok".to_string()
+        } else if let ["wake", fw] = w.as_slice() {
+            // IoUring::needs_wakeup over a ring whose SQ flags word holds <fw>
+            match fw.parse::<u32>() {
+                Ok(fw) => match Sim::new(0, 1, 1, 0, 0) {
+                    Some(mut sim) => {
+                        wr(unsafe { sim.words.as_mut_ptr().add(2) }, fw);
+                        match catch_unwind(AssertUnwindSafe(|| sim.ring.needs_wakeup())) {
+                            Ok(true) => "w1".to_string(),
+                            Ok(false) => "w0".to_string(),
+                            Err(_) => "panic".to_string(),
+                        }
+                    }
+                    None => "bad-op".to_string(),
+                },
+                Err(_) => "bad-op".to_string(),
+            }
         } else if let ["layout", e, f, i] = w.as_slice() {
             match (e.parse::<u32>(), f.parse::<u32>(), i.parse::<u32>()) {
                 (Ok(e), Ok(f), Ok(i)) => layout_probe(e, f, i),
